@@ -28,6 +28,7 @@ def histories(ctx):
 
 
 def run_unit(ctx):
+    C16u.design_step(ctx, 'C17')
     exe = C57.build_driver(ctx)
     fix = C57.detect_repairs(ctx, exe)
     cases = C16u.evaluate(ctx, 'C17', exe, fix, histories(ctx), True, 'rockrestart')
